@@ -512,8 +512,20 @@ def shard_main(pid: str, tier: str, spec_file: str, out_file: str) -> int:
     ctx.spec = {k: v for k, v in spec.items() if k != "idx"}
     mod = importlib.import_module(f"checks.{pid}")
     try:
-        if "replay_case" in spec:
-            mod.replay(ctx, spec["replay_case"])
+        rc = spec.get("replay_case")
+        if isinstance(rc, dict) and str(rc.get("kind", "")).startswith(
+                "suite:"):
+            # a case recorded by the process-wide contracts while the
+            # repository's own tests were the workload
+            from vlib.monitors.domain_contracts import replay_case
+            replay_case(ctx, rc)
+        elif "replay_case" in spec:
+            mod.replay(ctx, rc)
+        elif spec.get("args", {}).get("mode") == "suite":
+            from vlib.suite import run_suite
+            a = spec["args"]
+            run_suite(ctx, a["tests"], a["domains"],
+                      rounds=a.get("rounds", 1))
         else:
             mod.run_shard(ctx, spec.get("args", {}))
     except BaseException as e:  # noqa
